@@ -60,7 +60,8 @@ type link struct {
 }
 
 type run struct {
-	noPair bool
+	twins                  int // links already added whose two fresh end points lie 1 ulp apart
+	noPair                 bool
 	force                  *[2]int
 	pairAcc                map[uintptr]*pairAccess
 	pairRace, pairRaceWhat string
@@ -393,6 +394,10 @@ func (r *run) exec() {
 func (r *run) addLink(speedMode int) {
 	t := r.t
 	n := r.g * r.gy
+	if r.twins < 3 && t.OneIn(40, "twin-link") {
+		r.twinLink()
+		return
+	}
 	var a, b int
 	found := false
 	if r.force != nil {
@@ -513,6 +518,39 @@ func (r *run) addLink(speedMode int) {
 	}
 	if _, ok := r.nodes[b]; !ok {
 		r.nodes[b] = pb
+	}
+}
+
+// twinLink adds a link whose two end points are both new to the network and
+// lie 1 ulp apart (a ring road closing on itself up to rounding): neither is
+// registered when the other is looked up, so they are two nodes and the link
+// is legal ("any link geometries"; not a self-loop). It sits ten lattice
+// extents outside the lattice, forms a component of its own and is never the
+// nearest node of a query, so the Dijkstra model needs no knowledge of it; AddLink must simply
+// accept it.
+func (r *run) twinLink() {
+	t := r.t
+	// query points reach from -0.3 to 1.3 times the lattice's extent on either
+	// axis; ten extents away on both axes no query point is nearer to the twin
+	// than to a lattice node, whatever the two axis scales are
+	pa := geom.Point{X: -r.sx * float64((10+3*r.twins)*(r.g+1)), Y: -r.sy * float64(10*(r.gy+1))}
+	pb := pa
+	if t.Bool("twin-x") {
+		pb.X = math.Nextafter(pb.X, math.Inf(1))
+	} else {
+		pb.Y = math.Nextafter(pb.Y, math.Inf(-1))
+	}
+	ls := geom.LineString{pa}
+	if t.Bool("twin-interior") {
+		ls = append(ls, geom.Point{X: pa.X - r.sx*t.Unit("twin-ix"), Y: pa.Y - r.sy*t.Unit("twin-iy")})
+	}
+	ls = append(ls, pb)
+	r.twins++
+	r.res.Probe("link-between-two-new-end-points-1-ulp-apart")
+	r.log.Eventf("addlink twin %v", ls)
+	p, v, st := core.Protect(func() { r.net.AddLink(ls, 1) })
+	if p {
+		r.fail("panic", "AddLink", "AddLink(%v, 1) panicked on a link between two distinct new end points: %v %s", ls, v, core.TrimStack(st, 4))
 	}
 }
 
